@@ -52,7 +52,7 @@ func c05UpToDateTable(c *Check, a *Anchors) {
 	}
 	fn := c.P.SSAFunc(fb)
 	c.Fn(fb)
-	pe := &PathEnum{Fn: fn, MaxRevisit: 1, Event: func(in ssa.Instruction) (string, string) {
+	pe := &PathEnum{Fn: fn, MaxRevisit: revisit(), Event: func(in ssa.Instruction) (string, string) {
 		if call, ok := in.(*ssa.Call); ok && call.Common().IsInvoke() && call.Common().Method.Name() == "IsUpToDate" {
 			return recvName(call.Common().Value.Type()) + ".IsUpToDate", "call"
 		}
@@ -149,7 +149,7 @@ func c05ForceTable(c *Check, a *Anchors) {
 		return
 	}
 	c.Fn(a.BodyClosure)
-	pe := &PathEnum{Fn: fn, MaxRevisit: 1, Event: a.ssaLabel}
+	pe := &PathEnum{Fn: fn, MaxRevisit: revisit(), Event: a.ssaLabel}
 	pe.Name = isExitName(pe)
 	pe.Run()
 	c.Paths += len(pe.Paths)
